@@ -82,7 +82,12 @@ func (c18) Run(c *run.Ctx, phase, idx int) {
 	if r.Chance(1, 8) {
 		size = gen.Medium
 	}
-	m := gen.RandomMask(r, ref.TConnect) | 1<<2 // client id present
+	m := gen.RandomMask(r, ref.TConnect)
+	if r.Chance(2, 3) {
+		m |= 1 << 2 // client id present (absent in a third of the cases: the server assigns one)
+	} else {
+		m &^= 1 << 2
+	}
 	a := gen.Packet(r, ref.TConnect, m, size, gen.Domain{UTF8: true})
 	// which credentials are present
 	which := r.Intn(3) // 0 both, 1 user name only, 2 password only
